@@ -61,3 +61,12 @@ package bundler
 // caller's slice, or the decision of one build sticks to all later ones.
 //@ flow entry-point-decisions-stay-in-this-build.path C09: func=(*scanner).addEntryPoints ; in=bundler ; site=store EntryPoint.InputPath ; scenario=entry_point_path_sticks ; target-not-from=entryPoints
 //@ flow entry-point-decisions-stay-in-this-build.ns C09: func=(*scanner).addEntryPoints ; in=bundler ; site=store EntryPoint.InputPathInFileNamespace ; scenario=entry_point_path_sticks ; target-not-from=entryPoints
+
+// C19 / C09: the metafile lists every input ONCE, and what it says does not depend on the history of the build
+// context. (a) While the scan's final loop walks s.results it creates JavaScript stubs for CSS files imported from JS in
+// that same table; a stub is not an input of its own (it shares the CSS file's path), so whether a metadata chunk is
+// written for an entry must depend on its being such a stub. (b) "Minify the metafile if the bundle is really big" must
+// measure THIS build: len(s.results) is one more than the largest source index, and source indices are handed out by
+// the context-wide cache and never reused, so it counts every path the context has ever seen.
+//@ decides metafile-chunk-skips-css-stubs C19 C09: func=(*scanner).processScannedFiles ; in=bundler ; site=store scannerFile.jsonMetadataChunk ; control=1 ; scenario=metafile_css_stub_dup ; must=JSRepr.CSSSourceIndex
+//@ guarded metafile-format-measures-this-build C19 C09: func=(*scanner).processScannedFiles ; in=bundler ; site=store Options.MetafileFormat ; scenario=metafile_minified_after_history ; forbid=true:call len(s.results)>256
